@@ -468,11 +468,19 @@ Theorem C02_built_contracts {S : Scalar} (Sft : Sfield S) (Seqb : seqb_spec S) (
 Proof. exact (built_contracts Sft Seqb Ord kd ce dc ml ts M k nc pc). Qed.
 Print Assumptions C02_built_contracts.
 
-(* FULL STATEMENT (unproved), rest of B1:
-   (a) SPAI-0 / ILU / Chebyshev smoothers: the energy conditions stay hypotheses of hier_dec;
-   (b) the third clause of Inv, <A B g, B g> <= <B g, g> (only <= 2 <B g, g> is proved), and
-       "spectral radius of I - B A < 1" (follows from the strict energy decrease by the textbook
-       eigenvector argument, not formalised);
+(* FULL STATEMENT (unproved), rest of B1 (see also "B1, second part" at the end of this file, where SPAI-0,
+   matrices with entries of any sign, irreducible dominance and the eigenvalue form are proved):
+   (a) ILU(0) / ILU(k) / ILUP / Chebyshev smoothers: the energy conditions stay hypotheses of hier_dec
+       (it_dec / it_sdec of the sweep); for damped Jacobi the derived range is 0 < w <= 1 under
+       <A x,x> <= 2 <D x,x>; coarse levels of smoothed aggregation / Ruge-Stuben need not be
+       diagonally dominant, there the level condition has to be checked (descs_okb) or Gauss-Seidel
+       used (C02_gs_contracts_spd needs no condition on coarse levels);
+   (b) the third clause of Inv, <A B g, B g> <= <B g, g> (only < 2 <B g, g> is proved -- it is what
+       positivity and contraction need), and "spectral radius of I - B A < 1": proved is the strict
+       decrease of the energy norm of every error with non-zero residual and lambda^2 < 1 for every
+       eigenvalue lambda of I - B A that lies in the (ordered) field; what remains is the spectral
+       theorem (I - B A is A-self-adjoint, so over the reals it has an A-orthogonal eigenbasis and its
+       spectral radius is max |lambda|), which needs real-closedness and is not formalised;
    (c) for the re-scaled Galerkin operator of plain aggregation the Galerkin condition of
        hier_dec does not hold (A_c = s R A P with s <> 1), B1 is stated for coarse_op = galerkin.
    B2 scaling: proved below (C02_built_apply_scaling) for damped Jacobi, SPAI-0, Gauss-Seidel and the
@@ -878,3 +886,171 @@ Example C02_scaling_needs_a_cycle :
     fst (apply 1 1 1 0 (std_levels exJac ls) (map (@fresh_scratch QcS) ls) exF z) in
   vec_eqb (B (mscale exM (exq 2))) exF = true /\ vec_eqb (B exM) exF = true.
 Proof. vm_compute. auto. Qed.
+
+(* ================================================================== *)
+(* B1, second part (AmgSmooth.v - AmgSmooth5.v): the smoother hypotheses for matrices with entries of
+   ANY sign, SPAI-0, irreducible dominance, Gauss-Seidel on arbitrary SPD matrices, eigenvalues.
+     wdd n A : symmetric, positive diagonal, sum_{j<>i} |a_ij| <= a_ii  (|.| through operator<);
+     idd n A : every index is linked through non-zero entries to a strictly dominant row;
+     Dq = <D x,x>, Wq = <W x,x> with W = diag(sum_{j<>i}|a_ij|). *)
+From Amgcl Require Import AmgSmooth AmgSmooth2 AmgSmooth3 AmgSmooth4 AmgSmooth5.
+
+Theorem C02_wdd_quadratic_bounds {S : Scalar} (Sft : Sfield S) (Ord : ordered S) n (A : crs S) :
+  wdd n A -> forall x : vec S,
+  ole s0 (qA n A x x) /\ ole (qA n A x x) (Dq n A x + Wq n A x) /\ ole (qA n A x x) (Dq n A x + Dq n A x).
+Proof.
+  exact (fun HW x => conj (wdd_psd Sft Ord n A HW x)
+                          (conj (wdd_upper_W Sft Ord n A HW x) (wdd_upper Sft Ord n A HW x))).
+Qed.
+Print Assumptions C02_wdd_quadratic_bounds.
+
+(* irreducibly diagonally dominant => positive definite, and <A x,x> < 2 <D x,x> *)
+Theorem C02_idd_positive_definite {S : Scalar} (Sft : Sfield S) (Seqb : seqb_spec S) (Ord : ordered S)
+  n (A : crs S) : wdd n A -> idd n A -> forall x : vec S, (exists i, i < n /\ vget x i <> s0) ->
+  olt s0 (qA n A x x) /\ olt (qA n A x x) (Dq n A x + Dq n A x).
+Proof.
+  exact (fun HW HI x Hx => conj (idd_pd Sft Seqb Ord n A HW x HI Hx)
+                                (idd_upper_strict Sft Seqb Ord n A HW x HI Hx)).
+Qed.
+Print Assumptions C02_idd_positive_definite.
+
+Theorem C02_mmatrix_is_wdd {S : Scalar} (Sft : Sfield S) (Ord : ordered S) n (A : crs S) :
+  mmat n A -> wdd n A.
+Proof. exact (mmat_wdd Sft Ord n A). Qed.
+Print Assumptions C02_mmatrix_is_wdd.
+
+(* damped Jacobi, 0 < w <= 1 (amgcl's default 0.72 included): the energy decreases; strictly on
+   non-zero residuals for w < 1, and also for w = 1 on irreducibly dominant matrices *)
+Theorem C02_jacobi_energy_wdd {S : Scalar} (Sft : Sfield S) (Seqb : seqb_spec S) (Ord : ordered S)
+  (A : crs S) (w : S) (junk : vec S) :
+  wf A = true -> wdd (nrows A) A -> fdiag_ok A -> olt s0 w -> ole w s1 ->
+  let sw := fun rhs x t => jacobi_sweep w (jacobi_setup A junk) A rhs x t in
+  it_dec (nrows A) A (sm (nrows A) sw) /\
+  (olt w s1 \/ idd (nrows A) A -> it_sdec (nrows A) A (sm (nrows A) sw)).
+Proof.
+  exact (fun WA HW Hf H0 H1 =>
+    conj (jacobi_w_dec Sft Seqb Ord A w junk WA HW Hf H0 H1)
+         (fun Hs => match Hs with
+                    | or_introl Hlt => jacobi_w_sdec Sft Seqb Ord A w junk WA HW Hf H0 Hlt
+                    | or_intror Hid => jacobi_w_sdec_idd Sft Seqb Ord A w junk WA HW Hf H0 H1 Hid
+                    end)).
+Qed.
+Print Assumptions C02_jacobi_energy_wdd.
+
+(* SPAI-0 (no parameter): strict decrease on every weakly dominant matrix without duplicate columns *)
+Theorem C02_spai0_energy {S : Scalar} (Sft : Sfield S) (Seqb : seqb_spec S) (Ord : ordered S)
+  (Habs2 : forall v : S, sabs v * sabs v = v * v) (A : crs S) :
+  wf A = true -> wdd (nrows A) A -> rows_nodup A ->
+  let sw := fun rhs x t => spai0_sweep (spai0_setup A) A rhs x t in
+  it_dec (nrows A) A (sm (nrows A) sw) /\ it_sdec (nrows A) A (sm (nrows A) sw).
+Proof.
+  exact (fun WA HW Hn => conj (spai0_w_dec Sft Seqb Ord Habs2 A WA HW Hn)
+                              (spai0_w_sdec Sft Seqb Ord Habs2 A WA HW Hn)).
+Qed.
+Print Assumptions C02_spai0_energy.
+
+(* the eigenvalue form of the contraction: if an iteration strictly decreases the energy, every
+   eigenvalue lambda (in the field) of its error propagation e -> Phi(0, e) has lambda^2 < 1 *)
+Theorem C02_error_operator_eigenvalues {S : Scalar} (Sft : Sfield S) (Ord : ordered S)
+  n (A : crs S) (Phi : vec S -> vec S -> vec S) :
+  wf A = true -> nrows A = n -> sym_mat n A -> it_sdec n A Phi ->
+  forall (e : vec S) (lam : S), length e = n -> res n A (z n) e <> z n -> olt s0 (qA n A e e) ->
+  (forall i, i < n -> vget (Phi (z n) e) i = lam * vget e i) -> olt (lam * lam) s1.
+Proof. exact (sdec_eigen Sft Ord n A Phi). Qed.
+Print Assumptions C02_error_operator_eigenvalues.
+
+(* hierarchies: descs_ok kd ls = every level satisfies the condition of its smoother kind
+   (Jacobi: wdd, first diagonal entry = dense diagonal, 0 < w <= 1; SPAI-0: wdd, no duplicate columns;
+   Gauss-Seidel: one positive diagonal entry per row, A positive semi-definite), R = P^T *)
+Theorem C02_built_hierarchy_energy_wdd {S : Scalar} (Sft : Sfield S) (Seqb : seqb_spec S) (Ord : ordered S)
+  (Habs2 : forall v : S, sabs v * sabs v = v * v) k (ls : list (@ldesc S)) :
+  chain (@galerkin S) ls -> descs_ok k ls -> hier_dec (std_levels k ls).
+Proof. exact (chain_hier_dec2 Sft Seqb Ord Habs2 k ls). Qed.
+Print Assumptions C02_built_hierarchy_energy_wdd.
+
+(* B1 closed, second form: (1) <A Bg,Bg> < 2 <g,Bg> and <Bg,g> > 0 for g <> 0; (2) one cycle strictly
+   decreases the energy whenever the residual is non-zero; (3) eigenvalues of I - BA in (-1, 1) *)
+Theorem C02_built_contracts_wdd {S : Scalar} (Sft : Sfield S) (Seqb : seqb_spec S) (Ord : ordered S)
+  (Habs2 : forall v : S, sabs v * sabs v = v * v) kd ce dc ml ts (M : crs S) k nc pc :
+  let ls := amg_init ce dc ml (@galerkin S) ts M in
+  descs_ok kd ls -> top_strict_desc kd ls -> top_smoothed ls ->
+  let lvls := std_levels kd ls in
+  (forall scr g x, scratch_wf lvls scr -> length g = nrows M -> length x = nrows M ->
+   g <> vzero (nrows M) ->
+   let B := fst (apply (Datatypes.S k) (Datatypes.S k) (Datatypes.S nc) (Datatypes.S pc) lvls scr g x) in
+   lt0 (qA (nrows M) (sort_rows M) B B - two * ip (nrows M) g B) /\ olt s0 (ip (nrows M) g B)) /\
+  it_sdec (nrows M) (sort_rows M) (Cyc (Datatypes.S k) (Datatypes.S nc) lvls) /\
+  (forall (e : vec S) (lam : S), length e = nrows M ->
+     res (nrows M) (sort_rows M) (z (nrows M)) e <> z (nrows M) ->
+     olt s0 (qA (nrows M) (sort_rows M) e e) ->
+     (forall i, i < nrows M ->
+        vget (Cyc (Datatypes.S k) (Datatypes.S nc) lvls (z (nrows M)) e) i = lam * vget e i) ->
+     olt (lam * lam) s1).
+Proof. exact (built_contracts2 Sft Seqb Ord Habs2 kd ce dc ml ts M k nc pc). Qed.
+Print Assumptions C02_built_contracts_wdd.
+
+(* Gauss-Seidel multigrid on ANY symmetric positive definite matrix: hypotheses on the inputs only
+   (M symmetric, <M x,x> > 0 for x <> 0, no duplicate columns; R = P^T, P injective) *)
+Theorem C02_gs_contracts_spd {S : Scalar} (Sft : Sfield S) (Seqb : seqb_spec S) (Ord : ordered S)
+  (Habs2 : forall v : S, sabs v * sabs v = v * v) ce dc ml ts (M : crs S) k nc pc :
+  wf M = true -> sym_mat (nrows M) M -> pd M -> rows_nodup M -> ts_spd (nrows M) ts ->
+  let ls := amg_init ce dc ml (@galerkin S) ts M in
+  top_smoothed ls ->
+  let lvls := std_levels (@RGS S) ls in
+  (forall scr g x, scratch_wf lvls scr -> length g = nrows M -> length x = nrows M ->
+   g <> vzero (nrows M) ->
+   let B := fst (apply (Datatypes.S k) (Datatypes.S k) (Datatypes.S nc) (Datatypes.S pc) lvls scr g x) in
+   lt0 (qA (nrows M) (sort_rows M) B B - two * ip (nrows M) g B) /\ olt s0 (ip (nrows M) g B)) /\
+  it_sdec (nrows M) (sort_rows M) (Cyc (Datatypes.S k) (Datatypes.S nc) lvls) /\
+  (forall (e : vec S) (lam : S), length e = nrows M ->
+     res (nrows M) (sort_rows M) (z (nrows M)) e <> z (nrows M) ->
+     olt s0 (qA (nrows M) (sort_rows M) e e) ->
+     (forall i, i < nrows M ->
+        vget (Cyc (Datatypes.S k) (Datatypes.S nc) lvls (z (nrows M)) e) i = lam * vget e i) ->
+     olt (lam * lam) s1).
+Proof. exact (built_contracts_gs_spd Sft Seqb Ord Habs2 ce dc ml ts M k nc pc). Qed.
+Print Assumptions C02_gs_contracts_spd.
+
+(* closed at the exact rationals on the concrete 3-level hierarchy (1-D Poisson n = 4, two pairwise
+   aggregations, direct solve on the 1 x 1 level), for amgcl's DEFAULT smoother parameters:
+   damped Jacobi w = 0.72 = 18/25, SPAI-0, Gauss-Seidel; and undamped Jacobi (w = 1), strict through the
+   irreducible dominance of the matrix.  Every V(k,k)/W(k,k) cycle, k >= 1, pre_cycles >= 1. *)
+Definition exJacDefault : @relax_kind QcS := RJacobi (qc 18 25).
+Definition exJacOne : @relax_kind QcS := RJacobi (qc 1 1).
+Theorem C02_apply_contracts_default_Qc (kd : @relax_kind QcS) k nc pc :
+  kd = exJacDefault \/ kd = exJacOne \/ kd = @RSpai0 QcS \/ kd = @RGS QcS ->
+  let lvls := std_levels kd exH in
+  forall scr (g x : vec QcS), scratch_wf lvls scr -> length g = 4 -> length x = 4 -> g <> vzero 4 ->
+  let B := fst (apply (Datatypes.S k) (Datatypes.S k) (Datatypes.S nc) (Datatypes.S pc) lvls scr g x) in
+  lt0 (qA 4 (sort_rows exM) B B - two * ip 4 g B) /\ olt s0 (ip 4 g B).
+Proof.
+  intros Hk lvls scr g x Hs Lg Lx Hg.
+  assert (Hd : descs_ok kd exH).
+  { apply (descs_okb_ok QcS_field QcS_eqb QcS_ordered QcS_abs2).
+    destruct Hk as [->|[->|[->| ->]]]; vm_compute; reflexivity. }
+  assert (Ht : top_strict_desc kd exH).
+  { destruct Hk as [->|[->|[->| ->]]]; cbn.
+    - left. vm_compute. reflexivity.
+    - right. apply (iddb_ok QcS_eqb). vm_compute. reflexivity.
+    - exact I.
+    - exact I. }
+  destruct (built_contracts2 QcS_field QcS_eqb QcS_ordered QcS_abs2 kd 1 true 10 exTs exM k nc pc Hd Ht I)
+    as (H & _).
+  apply H; assumption.
+Qed.
+Print Assumptions C02_apply_contracts_default_Qc.
+
+(* non-vacuity: exM is weakly and irreducibly dominant, positive definite in the sense of pd is implied;
+   a matrix with POSITIVE off-diagonal entries (not an M-matrix) is covered as well *)
+Example C02_example_wdd_hypotheses :
+  wdd 4 (sort_rows exM) /\ idd 4 (sort_rows exM) /\ rows_nodup (sort_rows exM) /\
+  (let Mp : crs QcS := mkCrs 3 [[(0, exq 3); (1, exq 1); (2, exq (-2))]; [(0, exq 1); (1, exq 2)];
+                                 [(0, exq (-2)); (2, exq 5)]]%nat in
+   wdd 3 Mp /\ idd 3 Mp /\ mmatb 3 Mp = false).
+Proof.
+  split; [apply (wddb_ok QcS_eqb); vm_compute; reflexivity|].
+  split; [apply (iddb_ok QcS_eqb); vm_compute; reflexivity|].
+  split; [apply rows_nodupb_ok; vm_compute; reflexivity|].
+  split; [apply (wddb_ok QcS_eqb); vm_compute; reflexivity|].
+  split; [apply (iddb_ok QcS_eqb); vm_compute; reflexivity|vm_compute; reflexivity].
+Qed.
